@@ -1,5 +1,5 @@
 """Per-property streams: what is generated, which steps and components are compared, what counts as non-trivial."""
-import json
+import json, os
 from . import gen
 from .coqterm import FULL_VIEW, NO_VIEW
 
@@ -206,13 +206,39 @@ def nt_index(ops, obs):
     return shared and changed
 
 
+def equal_index_keys(g):
+    """a run of entries sharing one index key (ties are ordered by primary key), walked in both directions"""
+    r = g.r
+    rng = r.random() < 0.5
+    ops = [dict(op="create_table", client="c", table="tbl", hash=dict(name="h", type="S"),
+                **(dict(range=dict(name="r", type="S")) if rng else {}),
+                billing="PAY_PER_REQUEST", throughput=True, attrs=[dict(name="g", type="S")],
+                gsi=[dict(name="gix", hash=dict(name="g"), throughput=True)])]
+    t = dict(name="tbl", schema=gen.SCHEMAS[1] if rng else gen.SCHEMAS[0], indexes=[dict(name="gix", hash="g", range=None)])
+    keys = r.sample(["a", "b", "c", "ab", "a.b", "k1", "k2", "z"], r.randrange(4, 8))
+    for k in keys:
+        it = {"h": S(k), "g": S("x" if r.random() < 0.75 else r.choice(["w", "y"]))}
+        if rng: it["r"] = S(r.choice(["1", "2"]))
+        ops.append(dict(op="put", client="c", table="tbl", item=it))
+    return t, ops
+
+
 def page_script(g):
     r = g.r
-    t, ops = g.create_ops("c", "tbl")
-    ops += populate(g, t, nmin=3, nmax=10)
+    tie = r.random() < 0.3
+    if tie:
+        t, ops = equal_index_keys(g)
+    else:
+        t, ops = g.create_ops("c", "tbl")
+        ops += populate(g, t, nmin=3, nmax=10)
     base = dict(client="c", table="tbl")
     for _ in range(r.randrange(2, 5)):
         op = read_op(g, t, paged=True)
+        if tie:
+            op = dict(op="query", client="c", table="tbl", index="gix", keycond="g = :g", names={}, values={":g": S("x")},
+                      forward=r.random() < 0.5, limit=r.randrange(1, 4))
+            if r.random() < 0.3:
+                op = dict(op="scan", client="c", table="tbl", index="gix", names={}, values={}, limit=r.randrange(1, 4))
         full = json.loads(json.dumps(op)); full.pop("limit")
         ops.append(full)
         ops.append(op)
@@ -275,6 +301,14 @@ def failing_script(g):
             ops.append(dict(op="put", item=it, **base))
         if r.random() < 0.2:
             ops.append(dict(op="update", key=g.key_of(t["schema"]), expr="SET g = :n", names={}, values={":n": N("7")}, **base))
+        if r.random() < 0.25:
+            # a batch with an invalid request at the first, a middle or the last position of one table's list
+            good = [dict(put=g.item_of(t)) if r.random() < 0.7 else dict(delete=g.key_of(t["schema"])) for _ in range(r.randrange(2, 5))]
+            bad_it = g.item_of(t); bad_it["g"] = N("7")
+            bad = r.choice([dict(put=bad_it), dict(delete={"zz": S("nokey")}), dict(put={"zz": S("nokey")})])
+            good.insert(r.randrange(0, len(good) + 1), bad)
+            ops.append(dict(op="batch_write", client="c", requests={"tbl": good}))
+            ops.append(dict(op="scan", **base))
     return ops
 
 
@@ -289,6 +323,17 @@ def nt_failing(ops, obs):
 # ---------------- C10: value round trip ----------------
 def values_script(g):
     r = g.r
+    if r.random() < 0.2:
+        # number-keyed table: numerals that differ only beyond float64 precision, or only in notation, are different keys
+        ops = [dict(op="create_table", client="c", table="tbl", hash=dict(name="h", type="N"), billing="PAY_PER_REQUEST", throughput=True)]
+        ks = r.sample(["9007199254740993", "9007199254740992", "1", "1.0", "0.1", "0.1000000000000000000000000000000000001", "10", "1e1"], r.randrange(3, 7))
+        for i, k in enumerate(ks):
+            ops.append(dict(op="put", client="c", table="tbl", item={"h": N(k), "v": g.value(2), "i": N(str(i))}))
+        for k in ks:
+            ops.append(dict(op="get", client="c", table="tbl", key={"h": N(k)}))
+        ops.append(dict(op="scan", client="c", table="tbl"))
+        ops.append(dict(op="batch_get", client="c", requests={"tbl": [{"h": N(k)} for k in ks[:3]]}))
+        return ops
     ops = [dict(op="add_table", client="c", table="tbl", hash="h", range="")]
     for i in range(r.randrange(2, 6)):
         it = {"h": S("k%d" % i)}
@@ -311,7 +356,7 @@ def view_values(i, op):
 # ---------------- C13: keys ----------------
 def keys_script(g):
     r = g.r
-    schema = r.choice(gen.SCHEMAS[:3] + [dict(hash=("h", "B"), range=None), dict(hash=("h", "S"), range=("r", "B"))])
+    schema = r.choice(gen.SCHEMAS + [dict(hash=("h", "B"), range=None), dict(hash=("h", "S"), range=("r", "B"))])
     op = dict(op="create_table", client="c", table="tbl", hash=dict(name=schema["hash"][0], type=schema["hash"][1]),
               billing="PAY_PER_REQUEST", throughput=True)
     if schema["range"]: op["range"] = dict(name=schema["range"][0], type=schema["range"][1])
@@ -320,7 +365,7 @@ def keys_script(g):
     pool = ["a", "a.b", "b", "b.c", "a.", ".b", "c", "a.b.c", "ab", "1", "1.0", "[1 2]"]
     def kv(typ):
         if typ == "S": return S(r.choice(pool))
-        if typ == "N": return N(r.choice(["1", "1.0", "01", "10", "9", "1e1"]))
+        if typ == "N": return N(r.choice(["1", "1.0", "01", "10", "9", "1e1", "9007199254740993", "9007199254740992", "0.1", "0.10", "7"]))
         return {"B": r.choice(["\x01\x02", "\x01", "1 2", "\x0c", "ab"])}
     def key(exact=True):
         k = {schema["hash"][0]: kv(schema["hash"][1])}
@@ -328,7 +373,11 @@ def keys_script(g):
         if not exact:
             q = r.random()
             if q < 0.3 and schema["range"]: del k[schema["range"][0]]
-            elif q < 0.6: k[schema["hash"][0]] = {"BOOL": True}
+            elif q < 0.45: k[schema["hash"][0]] = {"BOOL": True}
+            elif q < 0.6:
+                # the other scalar type with the same text: "7" for a number key, 7 for a string key
+                an, at = r.choice([schema["hash"]] + ([schema["range"]] if schema["range"] else []))
+                k[an] = S(r.choice(["7", "1", "10"])) if at == "N" else N("7") if at == "S" else S("\x01")
             elif q < 0.8: k = {}
             else: k["zz"] = S("extra")
         return k
@@ -410,7 +459,11 @@ def batch_script(g):
         for _ in range(r.randrange(1, 5)):
             tt = r.choice(tabs)
             greq.setdefault(tt["name"], []).append(g.key_of(tt["schema"]))
-        ops.append(dict(op="batch_get", client="c", requests=greq))
+        bg = dict(op="batch_get", client="c", requests=greq)
+        opts = {tn: g.projection() for tn in greq if r.random() < 0.5}
+        opts = {tn: o for tn, o in opts.items() if o}
+        if opts: bg["opts"] = opts
+        ops.append(bg)
     return ops
 
 
@@ -425,7 +478,9 @@ def nt_batch(ops, obs):
 
 # ---------------- C20: native interpreter ----------------
 NATIVE_EXPRS = ["x = :y", "y = :x", "x  =  :y", " x = :y ", "x\t=\n:y", ":y = x", "g = :v", "g=:v", "SET g = :v", "SET  g = :v",
-                "attribute_exists(h)", "attribute_exists( h )", "h = :h", "h = :h AND g = :v"]
+                "attribute_exists(h)", "attribute_exists( h )", "h = :h", "h = :h AND g = :v",
+                # texts that differ only in letter case are different registrations
+                "X = :y", "G = :v", "SET G = :v", "set g = :v", "H = :h"]
 
 
 def native_script(g):
@@ -478,15 +533,34 @@ def nt_native(ops, obs):
 
 
 # ---------------- C16: restrictions ----------------
+_RESERVED = []
+
+
+def reserved_word_list():
+    """the reserved words, read from the committed reference tables (coq/ref/Tables.v)"""
+    if not _RESERVED:
+        import re
+        txt = open(os.path.join(os.path.dirname(os.path.dirname(os.path.abspath(__file__))), 'coq', 'ref', 'Tables.v')).read()
+        m = re.search(r'Definition reserved_words : list str :=(.*?)\]\.', txt, re.S)
+        _RESERVED.extend(re.findall(r'\(bs "([A-Z_]+)"\)', m.group(1)))
+        assert len(_RESERVED) > 500
+    return _RESERVED
+
+
 def restrictions_script(g):
     r = g.r
     ops = [dict(op="add_table", client="c", table="tbl", hash="h", range="r"), dict(op="add_table", client="c", table="tb2", hash="h", range="")]
     base = dict(client="c", table="tbl")
     ops.append(dict(op="put", item={"h": S("a"), "r": S("1"), "g": S("x")}, **base))
     words = ["name", "size", "status", "count", "data", "user", "zone", "comment", "hidden", "abort", "year", "ttl", "hash", "range", "key"]
+    allw = reserved_word_list()
+    by_len = sorted(allw, key=len)
+    # boundary lengths of the list, and near misses that are NOT reserved (one letter more / less)
+    edge = by_len[:6] + by_len[-6:] + [by_len[-1] + "S", by_len[-1][:-1], by_len[0] + "Q"]
     for _ in range(r.randrange(6, 14)):
         k = r.random()
-        w = r.choice(words)
+        q = r.random()
+        w = r.choice(words) if q < 0.5 else r.choice(allw).lower() if q < 0.8 else r.choice(edge).lower()
         w = r.choice([w, w.upper(), w.capitalize()])
         if k < 0.14: ops.append(dict(op="scan", filter="%s = :v" % w, names={}, values={":v": S("x")}, **base))
         elif k < 0.2:
